@@ -663,11 +663,11 @@ func c10Globs(c *core.Ctx, dir string) {
 			switch pattern {
 			case "*.journal":
 				ok = !strings.Contains(rel, "/")
-			case "f?.journal":
+			case "f?.journal", "~/f?.journal":
 				ok = !strings.Contains(rel, "/") && len(rel) == len("f1.journal") && strings.HasPrefix(rel, "f")
 			case "f[12].journal":
 				ok = rel == "f1.journal" || rel == "f2.journal"
-			case "sub/*.journal":
+			case "sub/*.journal", "~/sub/*.journal":
 				ok = strings.HasPrefix(rel, "sub/") && strings.Count(rel, "/") == 1
 			case "**/*.journal":
 				ok = true
@@ -687,12 +687,25 @@ func c10Globs(c *core.Ctx, dir string) {
 		sort.Strings(out)
 		return out
 	}
+	// the same patterns written relative to the home directory ("~/...") when they stand in the root file
+	home := os.Getenv("HOME")
+	relHome, relErr := filepath.Rel(home, dir)
+	if home != "" && relErr == nil {
+		pats = append(pats, "~/f?.journal", "~/sub/*.journal")
+	}
 	for _, from := range files {
 		for _, p := range pats {
+			if strings.HasPrefix(p, "~/") && from != "r.journal" {
+				continue
+			}
 			for i, f := range files {
 				content := tx(i)
 				if f == from {
-					content = "include " + p + "\n" + content
+					written := p
+					if strings.HasPrefix(p, "~/") {
+						written = "~/" + relHome + "/" + p[2:]
+					}
+					content = "include " + written + "\n" + content
 				}
 				_ = os.WriteFile(filepath.Join(dir, f), []byte(content), 0o644)
 			}
